@@ -8,12 +8,16 @@ CFG = {
                   "fake net.Listener/net.Conn of the harness in place of real TCP (segmentation is property C14's), pion/stun decoding "
                   "(frames are classified by how the harness built them), the goroutine census by creation site, sequential "
                   "run-to-quiescence scheduling (operations do not overlap; Close is split into call and return). Partial: races "
-                  "between the close watcher and concurrent GetConnByUfrag/handleConn are outside the sequential model (notes/C15.md, S-a).",
+                  "between the close watcher and concurrent GetConnByUfrag/handleConn are outside the sequential model; that window (finding F22) is covered by the concurrent recorder component tcpmuxrace (notes/C15.md).",
     "components": [{"component": "tcpmux", "session_start": "new", "trivial_regex": r"^(bad-op|no-session|noop.*)$",
-                    "timeout_quick": 300, "timeout_thorough": 1500, "shrink_s": 60}],
-    "rule": "sessions of the real TCPMuxDefault under synctest: 12 hand-written boundary scripts (512/516-byte first frame, deadline-1/deadline, "
+                    "timeout_quick": 300, "timeout_thorough": 1500, "shrink_s": 60},
+                   # concurrent recorder for F22 (real goroutines, no synctest): RemoveConnByUfrag vs GetConnByUfrag /
+                   # first frame for the same ufrag; quick 1500 rounds, thorough 20000 rounds
+                   {"component": "tcpmuxrace", "trivial_regex": r"^(bad-op.*)$", "timeout_quick": 300,
+                    "timeout_thorough": 1500, "shrink_s": 5}],
+    "rule": "sessions of the real TCPMuxDefault under synctest: 13 hand-written boundary scripts (512/516-byte first frame, deadline-1/deadline, "
             "alive-1/alive, unbuffered and full receive channel, Close with pending clients, duplicate remote address, both families) + "
-            "8 MultiTCPMuxDefault.GetAllConns cases + random sessions (quick: 400 x <=30 ops, thorough: 6000 x <=150 ops) over "
+            "8 MultiTCPMuxDefault.GetAllConns cases + concurrent recorder tcpmuxrace (RemoveConnByUfrag vs GetConnByUfrag / first frame, quick 1500 / thorough 20000 rounds) + random sessions (quick: 400 x <=30 ops, thorough: 6000 x <=150 ops) over "
             "{accept, frame(valid/unknown ufrag/no USERNAME/other method/garbage/oversized), partial (slow loris), client close/reset, advance, "
             "GetConnByUfrag, RemoveConnByUfrag, handle Close, packet-conn Close, WriteTo, ReadFrom, mux Close}; configuration "
             "ReadBufferSize in {0,1,2,4,64}, WriteBufferSize in {0,4096}, timeouts in {default,7/5,30/50 ms}. Distinct = distinct "
